@@ -44,12 +44,12 @@ type fds struct {
 	idx      map[string]int // datastore key -> key index
 	touched  []int
 	readonly bool
-	plan     qplan
+	plans    map[int]qplan // per calling thread (-1 = sequential mode)
 	sch      *sched
 }
 
 func newFds(idx map[string]int) *fds {
-	return &fds{data: map[string][]byte{}, idx: idx}
+	return &fds{data: map[string][]byte{}, idx: idx, plans: map[int]qplan{}}
 }
 
 func (d *fds) keyIdx(k ds.Key) int {
@@ -176,8 +176,8 @@ func (d *fds) Query(ctx context.Context, q dsq.Query) (dsq.Results, error) {
 	d.park(ctx, "pre", "Query", qmark, "")
 	d.mu.Lock()
 	d.touch(qmark)
-	plan := d.plan
-	d.plan = qplan{}
+	plan := d.plans[tidOf(ctx)]
+	delete(d.plans, tidOf(ctx))
 	type ent struct {
 		i int
 		k string
@@ -201,7 +201,8 @@ func (d *fds) Query(ctx context.Context, q dsq.Query) (dsq.Results, error) {
 		p := n
 		n++
 		d.park(ctx, "pre", "Next", p, "")
-		if plan.kind == "err" && p == plan.pos {
+		if plan.kind == "err" && (p == plan.pos || p >= len(snap)) {
+			// fails at the planned position, or at the end if there are fewer keys
 			return dsq.Result{Error: errInjected}, true
 		}
 		if plan.kind == "cancel" && p == plan.pos && plan.cancel != nil {
